@@ -12,6 +12,10 @@ import (
 	"sync"
 	"time"
 
+	"github.com/jensneuse/abstractlogger"
+
+	"github.com/wundergraph/graphql-go-tools/execution/engine"
+	"github.com/wundergraph/graphql-go-tools/execution/graphql"
 	"github.com/wundergraph/graphql-go-tools/execution/subscription"
 	"github.com/wundergraph/graphql-go-tools/execution/subscription/websocket"
 	"github.com/wundergraph/graphql-go-tools/v2/pkg/ast"
@@ -23,26 +27,27 @@ import (
 // Event kinds. Everything the handler, the executors and the driver do to the fake client is
 // appended to ONE history under one mutex, so the sequence numbers are a total order.
 const (
-	evRQ      = "RQ"      // the handler entered ReadBytesFromClient (proves the previous message was handled)
-	evR       = "R"       // the driver hands client message M to the handler
-	evRDROP   = "RDROP"   // message M was not delivered (the connection was closed concurrently)
-	evEOF     = "EOF"     // the client closes the connection
-	evW       = "W"       // a message written to the connected client
-	evWX      = "WX"      // a write attempt after the connection was closed (never delivered; the real client refuses it too)
-	evC       = "C"       // DisconnectWithReason / Disconnect on the connected client (the close frame)
-	evCX      = "CX"      // a disconnect call on an already closed client
-	evREL     = "REL"     // the driver releases the gate of executor M
-	evXGET    = "XGET"    // ExecutorPool.Get succeeded while message M was being handled
-	evXGETERR = "XGETERR" // ExecutorPool.Get refused the payload of message M
-	evXS      = "XS"      // Execute of executor M begins
-	evXE      = "XE"      // executor M emits result N (logged before the write)
-	evXWAIT   = "XWAIT"   // executor M parks at its gate
-	evXHOLD   = "XHOLD"   // executor M (subscription) blocks until its context is cancelled
-	evXCANCEL = "XCANCEL" // executor M observed the cancellation of its context
-	evXR      = "XR"      // Execute of executor M is about to return (Err: with an error)
-	evXP      = "XP"      // ExecutorPool.Put(executor M): the engine is done with the operation
-	evDONE    = "DONE"    // Handle returned
-	evPANIC   = "PANIC"   // Handle panicked (recovered by the rig)
+	evRQ       = "RQ"       // the handler entered ReadBytesFromClient (proves the previous message was handled)
+	evR        = "R"        // the driver hands client message M to the handler
+	evRDROP    = "RDROP"    // message M was not delivered (the connection was closed concurrently)
+	evEOF      = "EOF"      // the client closes the connection
+	evW        = "W"        // a message written to the connected client
+	evWX       = "WX"       // a write attempt after the connection was closed (never delivered; the real client refuses it too)
+	evC        = "C"        // DisconnectWithReason / Disconnect on the connected client (the close frame)
+	evCX       = "CX"       // a disconnect call on an already closed client
+	evREL      = "REL"      // the driver releases the gate of executor M
+	evXGET     = "XGET"     // ExecutorPool.Get succeeded while message M was being handled
+	evXGETERR  = "XGETERR"  // ExecutorPool.Get refused the payload of message M
+	evXGETHOOK = "XGETHOOK" // ExecutorPool.Get handed out a real ExecutorV2 for message M (the hook refuses it)
+	evXS       = "XS"       // Execute of executor M begins
+	evXE       = "XE"       // executor M emits result N (logged before the write)
+	evXWAIT    = "XWAIT"    // executor M parks at its gate
+	evXHOLD    = "XHOLD"    // executor M (subscription) blocks until its context is cancelled
+	evXCANCEL  = "XCANCEL"  // executor M observed the cancellation of its context
+	evXR       = "XR"       // Execute of executor M is about to return (Err: with an error)
+	evXP       = "XP"       // ExecutorPool.Put(executor M): the engine is done with the operation
+	evDONE     = "DONE"     // Handle returned
+	evPANIC    = "PANIC"    // Handle panicked (recovered by the rig)
 )
 
 type event struct {
@@ -258,6 +263,44 @@ func closeCode(reason any) int {
 	return 0
 }
 
+// -- the before-start hook dimension
+
+// refuseHook is the WebsocketBeforeStartHook of the shared engine: it refuses by a rule the
+// generator controls (a marker in the operation text).
+type refuseHook struct{}
+
+func (refuseHook) OnBeforeStart(_ context.Context, op *graphql.Request) error {
+	if strings.Contains(op.Query, hookMarker) {
+		return errors.New(hookErrText)
+	}
+	return nil
+}
+
+var (
+	hookEngineOnce sync.Once
+	hookEngineVal  *engine.ExecutionEngine
+)
+
+// hookEngine is one real ExecutionEngine per process whose only purpose is to carry the hook
+// (ExecutorEngine.handleOnBeforeStart reads it through ExecutorV2). Nothing is ever executed on
+// it on a correct tree.
+func hookEngine() *engine.ExecutionEngine {
+	hookEngineOnce.Do(func() {
+		schema, err := graphql.NewSchemaFromString("type Query { " + hookMarker + ": Int }")
+		if err != nil {
+			panic("c19 rig: schema: " + err.Error())
+		}
+		conf := engine.NewConfiguration(schema)
+		conf.SetWebsocketBeforeStartHook(refuseHook{})
+		e, err := engine.NewExecutionEngine(context.Background(), abstractlogger.NoopLogger, conf, resolve.ResolverOptions{MaxConcurrency: 8})
+		if err != nil {
+			panic("c19 rig: engine: " + err.Error())
+		}
+		hookEngineVal = e
+	})
+	return hookEngineVal
+}
+
 // -- subscription.ExecutorPool / Executor
 
 type fakeExec struct {
@@ -293,6 +336,14 @@ func (r *rig) Get(payload []byte) (subscription.Executor, error) {
 	if m < 0 || m >= len(r.c.Msgs) {
 		r.log(event{K: evXGETERR, M: m})
 		return nil, errors.New("rig: no message is being handled")
+	}
+	if r.c.Hook && strings.Contains(req.Query, hookMarker) {
+		// The engine consults the before-start hook only for *subscription.ExecutorV2, so the
+		// operations the hook refuses get a real one from a real ExecutorV2Pool (it is never
+		// executed on a correct tree; everything the hook lets through runs a scripted fake,
+		// which is equivalent to the hook accepting it).
+		r.log(event{K: evXGETHOOK, M: m, ID: r.c.Msgs[m].ID, Payload: req.Query})
+		return subscription.NewExecutorV2Pool(hookEngine(), context.Background()).Get(payload)
 	}
 	e := &fakeExec{r: r, m: m, id: r.c.Msgs[m].ID, sc: effectiveScript(r.c.Msgs[m]), gate: make(chan struct{})}
 	r.mu.Lock()
@@ -527,6 +578,9 @@ func (r *rig) failedSubAwaitingLocked() int {
 func drive(c Case) outcome {
 	var out outcome
 	r := newRig(c)
+	if c.Hook {
+		hookEngine() // its resolver goroutines belong to the baseline
+	}
 	base := runtime.NumGoroutine()
 	ctx, cancel := context.WithCancel(context.Background())
 	defer cancel()
